@@ -587,8 +587,23 @@ pub fn mentions_param_rule(cx: &Cx, rep: &mut Report) {
         rep.check(ok, "DM-mentions-param", &f.qual, "param-kinds", &format!("the set of generic parameters is not `type and const parameters, not lifetimes`: {ins:?}"), &site(&f), json!({}));
         rep.unanalysable(&f.qual, &ev.unsupported.borrow());
     } else { rep.fail("unanalysable", "GenericParamSet", "new", "constructor from &Generics not found", "syn_utils.rs", json!({})); }
+    // membership test: `contains(ident)` answers the set's own `contains` of the (un-raw) identifier, positively
+    if let Some(cf) = find_fn(ix, &|f| f.self_ty.as_deref() == Some("GenericParamSet") && sig_text(f).contains("&Ident") && sig_text(f).ends_with("->bool")) {
+        let ev = mk_ev(ix);
+        let outs = ev.call_fn(St::new(), &cf, Some(sym("GenericParamSet", "set")), vec![sym("Ident", "ident")]);
+        let ok = outs.len() == 1 && matches!(&outs[0].1, Flow::Val(Val::Opaque { what, deps }) | Flow::Ret(Val::Opaque { what, deps }) if what == ".contains" && deps.first().map(|d| d.any(&|y| matches!(y, Val::Sym { path, .. } if path.starts_with("set.")))).unwrap_or(false) && deps.iter().skip(1).any(|d| d.any(&|y| matches!(y, Val::Sym { path, .. } if path == "ident"))));
+        rep.check(ok, "DM-mentions-param", &cf.qual, "membership", &format!("the parameter test is not `the set contains the identifier`: {:?}", outs.iter().map(|(_, fl)| match fl { Flow::Val(v) | Flow::Ret(v) => v.short(), _ => "?".into() }).collect::<Vec<_>>()), &site(&cf), json!({}));
+    } else { rep.fail("unanalysable", "GenericParamSet", "contains", "method (&Ident) -> bool not found", "syn_utils.rs", json!({})); }
     // the visitor override nested in contains_in_type
     let Some(outer) = find_fn(ix, &|f| f.self_ty.as_deref() == Some("GenericParamSet") && sig_text(f).contains("&Type") && sig_text(f).contains("->bool")) else { rep.fail("unanalysable", "GenericParamSet", "contains_in_type", "method (&Type) -> bool not found", "syn_utils.rs", json!({})); return; };
+    // its frame: start from "not found", traverse the given type, answer what the traversal found
+    {
+        let ev = mk_ev(ix);
+        ev.open_at_top.replace(Some(outer.qual.clone()));
+        let outs = ev.call_fn(St::new(), &outer, Some(sym("GenericParamSet", "set")), vec![sym("Type", "ty")]);
+        let ok = outs.len() == 1 && matches!(&outs[0].1, Flow::Val(Val::Bool(false)) | Flow::Ret(Val::Bool(false))) && notes(&outs[0].0).iter().any(|n| n.starts_with("mutcall ") && n.contains(".visit_type(") && n.contains("$ty"));
+        rep.check(ok, "DM-mentions-param", &outer.qual, "frame", &format!("the traversal does not start from `no parameter seen`, visit the given type and answer its own flag: {:?} / {:?}", outs.iter().map(|(_, fl)| match fl { Flow::Val(v) | Flow::Ret(v) => v.short(), _ => "?".into() }).collect::<Vec<_>>(), outs.first().map(|o| notes(&o.0)).unwrap_or_default()), &site(&outer), json!({}));
+    }
     let mut nested: Option<syn::ImplItemFn> = None;
     for s in &outer.block.stmts { if let syn::Stmt::Item(syn::Item::Impl(im)) = s { for it in &im.items { if let syn::ImplItem::Fn(f) = it { if f.sig.ident.to_string().starts_with("visit_") { nested = Some(f.clone()); } } } } }
     let Some(vf) = nested else { rep.fail("DM-mentions-param", &outer.qual, "no-visitor", "the type is no longer traversed by a syn visitor override", &site(&outer), json!({})); return; };
@@ -641,6 +656,22 @@ pub fn same_source_rule(cx: &Cx, rep: &mut Report) {
         rep.check(ok, "ES-same-source", &ff.qual, "in-order-enumeration", "the field entries are not the in-order enumeration (index, field) of the given `Fields`", &site(&ff), json!({"paths": outs.iter().map(|(_, fl)| match fl { Flow::Val(v) | Flow::Ret(v) => v.short().chars().take(200).collect::<String>(), _ => String::new() }).collect::<Vec<_>>()}));
         rep.unanalysable(&ff.qual, &ev.unsupported.borrow());
     } else { rep.fail("unanalysable", "FieldEntry", "from_fields", "constructor of the field entries from `Fields` not found", "item_type.rs", json!({})); }
+    // VariantEntry::from_variants: one entry per variant, in order
+    if let Some(fv) = find_fn(ix, &|f| f.self_ty.as_deref() == Some("VariantEntry") && sig_text(f).contains("Variant") && sig_text(f).contains("Result<Vec<Self>>")) {
+        let mut ev = mk_ev(ix);
+        if let Some(vn) = find_fn(ix, &|f| f.self_ty.as_deref() == Some("VariantEntry") && sig_text(f).contains("&'aVariant") && sig_text(f).ends_with("->Result<Self>")) { ev.stops.push((vn.qual.clone(), "ret")); }
+        let outs = ev.call_fn(St::new(), &fv, None, vec![Val::Sym { ty: Ty::Slice(Box::new(Ty::Named("Variant".into(), vec![]))), path: "variants".into() }, sym("HelperAttributeKinds", "kinds")]);
+        let mut ok = false;
+        for (st, fl) in &outs {
+            if st.cond.iter().any(|(a, b)| a.starts_with("ok(") && !*b) { continue; }
+            let v = match fl { Flow::Val(v) | Flow::Ret(v) => v, _ => continue };
+            let v = match v { Val::Enum { var, args, .. } if var == "Ok" && args.len() == 1 => &args[0], o => o };
+            let items: Vec<Val> = match v { Val::List(l) => l.clone(), o => vec![o.clone()] };
+            if items.len() == 1 { if let Val::Rep { coll, items: body } = &items[0] { if coll == "variants" && body.len() == 1 && body[0].any(&|y| matches!(y, Val::Sym { path, .. } if path.contains("variants[*]"))) { ok = true; } } }
+        }
+        rep.check(ok, "ES-same-source", &fv.qual, "in-order-enumeration", "the variant entries are not one entry per variant of the given list, in order", &site(&fv), json!({"paths": outs.iter().map(|(_, fl)| match fl { Flow::Val(v) | Flow::Ret(v) => v.short().chars().take(200).collect::<String>(), _ => String::new() }).collect::<Vec<_>>()}));
+        rep.unanalysable(&fv.qual, &ev.unsupported.borrow());
+    } else { rep.fail("unanalysable", "VariantEntry", "from_variants", "constructor of the variant entries not found", "item_type.rs", json!({})); }
     // cores pass the entries built from the item they pass alongside
     for kind in ["struct", "enum"] {
         let Some(cm) = core_model(cx, kind) else { continue };
@@ -764,6 +795,170 @@ pub fn impl_helpers_rule(cx: &Cx, rep: &mut Report) {
 }
 
 /// every `bail!` carries a non-empty literal message
+/// DM-attr-names (Debug / Default): the helper attribute is looked up under its documented name
+pub fn helper_name_rule(cx: &Cx, rep: &mut Report, owner: &str, want: &str) {
+    let ix = &cx.ix;
+    let Some(parser) = find_fn(ix, &|f| f.self_ty.as_deref() == Some(owner) && sig_text(f).contains("&[Attribute]") && sig_text(f).contains("Result<")) else {
+        rep.fail("unanalysable", owner, "parser", "attribute parser (attrs) -> Result<..> not found", "item_type.rs", json!({})); return;
+    };
+    let Some(single) = find_fn(ix, &|f| f.self_ty.is_none() && sig_text(f).contains("&[Attribute]") && sig_text(f).contains("&str") && sig_text(f).contains("Result<Option<T>>")) else {
+        rep.fail("unanalysable", "parse_single", "not-found", "the by-name attribute lookup (attrs, name) -> Result<Option<T>> not found", "item_type.rs", json!({})); return;
+    };
+    let mut ev = mk_ev(ix);
+    ev.stops.push((single.qual.clone(), "ret"));
+    ev.push_fns.push(single.qual.clone());
+    let outs = ev.call_fn(St::new(), &parser, None, vec![Val::Sym { ty: Ty::Slice(Box::new(Ty::Named("Attribute".into(), vec![]))), path: "attrs".into() }]);
+    let mut names = std::collections::BTreeSet::new();
+    for (st, _) in &outs { for e in &st.events { if let Event::Push { func, args, .. } = e { if *func == single.qual { if let Some(n) = args.get(1) { names.insert(n.clone()); } } } } }
+    rep.check(names.len() == 1 && names.iter().next() == Some(&format!("{want:?}")), "DM-attr-names", &parser.qual, want, &format!("the `#[{want}]` helper attribute is looked up under {names:?}"), &site(&parser), json!({}));
+}
+
+/// DM-default-placeholder: `#[default(_)]` means "no value" (only bounds), anything else is the value
+pub fn default_placeholder_rule(cx: &Cx, rep: &mut Report) {
+    let ix = &cx.ix;
+    let Some(parser) = find_fn(ix, &|f| f.self_ty.as_deref() == Some("HelperAttributeForDefault") && sig_text(f).contains("&[Attribute]") && sig_text(f).contains("Result<Option<Self>>")) else {
+        rep.fail("unanalysable", "HelperAttributeForDefault", "parser", "parser (attrs) -> Result<Option<Self>> not found", "item_type.rs", json!({})); return;
+    };
+    let Some(single) = find_fn(ix, &|f| f.self_ty.is_none() && sig_text(f).contains("&[Attribute]") && sig_text(f).contains("&str") && sig_text(f).contains("Result<Option<T>>")) else { return };
+    let vfield = ix.structs.get("HelperAttributeForDefault").and_then(|s| s.fields.iter().find(|(_, t)| crate::index::ty_str(t).starts_with("Option<")).map(|(n, _)| n.clone())).unwrap_or("value".into());
+    let mut ev = mk_ev(ix);
+    ev.stops.push((single.qual.clone(), "ret"));
+    ev.stops.push(("Bounds::from".into(), "opaque"));
+    let outs = ev.call_fn(St::new(), &parser, None, vec![Val::Sym { ty: Ty::Slice(Box::new(Ty::Named("Attribute".into(), vec![]))), path: "attrs".into() }]);
+    rep.unanalysable(&parser.qual, &ev.unsupported.borrow());
+    let (mut ph_none, mut other_some, mut absent_none, mut bad) = (false, false, false, Vec::new());
+    for (st, fl) in &outs {
+        let v = match fl { Flow::Val(v) | Flow::Ret(v) => v, _ => continue };
+        if !matches!(v, Val::Enum { var, .. } if var == "Ok") { continue; }
+        let Val::Enum { args, .. } = v else { continue };
+        let is_placeholder = st.cond.iter().find(|(a, _)| a.contains("==quote(_)")).map(|(_, b)| *b);
+        match args.first() {
+            Some(Val::Enum { var, args: inner, .. }) if var == "Some" => {
+                let Some(Val::Struct { fields, .. }) = inner.first() else { bad.push("the parsed attribute is not the helper struct".to_string()); continue };
+                let val = fields.iter().find(|(n, _)| *n == vfield).map(|(_, v)| v.clone());
+                match (is_placeholder, val) {
+                    (Some(true), Some(Val::Enum { var, .. })) if var == "None" => ph_none = true,
+                    (Some(false), Some(Val::Enum { var, args: a, .. })) if var == "Some" && a.first().map(|x| x.any(&|y| matches!(y, Val::Sym { path, .. } if path.contains(&single.qual)))).unwrap_or(false) => other_some = true,
+                    (ph, v) => bad.push(format!("placeholder: {ph:?}, value: {}", v.map(|x| x.short()).unwrap_or_default())),
+                }
+            }
+            Some(Val::Enum { var, .. }) if var == "None" => absent_none = true,
+            other => bad.push(format!("unexpected result {}", other.map(|x| x.short()).unwrap_or_default())),
+        }
+    }
+    rep.check(ph_none && other_some && absent_none && bad.is_empty(), "DM-default-placeholder", &parser.qual, "underscore", &format!("`#[default(_)]` is not `no value`, or another expression is not taken as the value (placeholder->None: {ph_none}, other->Some: {other_some}, absent->None: {absent_none}; {})", bad.join("; ").chars().take(300).collect::<String>()), &site(&parser), json!({}));
+}
+
+/// DM-op-parse: the operator named by an impl item / a listed identifier: `<Op>` is the binary form, `<Op>Assign` the
+/// assign form of the same operator, anything else is refused
+pub fn op_parse_rule(cx: &Cx, rep: &mut Report) {
+    let ix = &cx.ix;
+    let Some(f) = find_fn(ix, &|f| f.self_ty.as_deref() == Some("Op") && sig_text(f).contains("&str") && sig_text(f).ends_with("->Option<Self>")) else {
+        rep.fail("unanalysable", "Op", "from_str", "(&str) -> Option<Op> not found", "item_impl.rs", json!({})); return;
+    };
+    let ops = ["Add", "BitAnd", "BitOr", "BitXor", "Div", "Mul", "Rem", "Shl", "Shr", "Sub"];
+    let ev = mk_ev(ix);
+    let mut n = 0;
+    for op in ops {
+        for (name, form) in [(op.to_string(), "Binary"), (format!("{op}Assign"), "Assign")] {
+            let outs = ev.call_fn(St::new(), &f, None, vec![Val::Str(name.clone())]);
+            let got: Vec<String> = outs.iter().map(|(_, fl)| match fl { Flow::Val(v) | Flow::Ret(v) => v.short(), _ => "?".into() }).collect();
+            let ok = outs.len() == 1 && matches!(&outs[0].1, Flow::Val(Val::Enum { var, args, .. }) | Flow::Ret(Val::Enum { var, args, .. }) if var == "Some" && matches!(args.first(), Some(Val::Struct { fields, .. }) if fields.iter().any(|(_, v)| matches!(v, Val::Enum { ty, var, .. } if ty == "BinaryOp" && var == op)) && fields.iter().any(|(_, v)| matches!(v, Val::Enum { ty, var, .. } if ty == "OpForm" && var == form))));
+            n += 1;
+            rep.check(ok, "DM-op-parse", &f.qual, &name, &format!("`{name}` is not parsed as the {form} form of {op}: {got:?}"), &site(&f), json!({}));
+        }
+    }
+    for junk in ["Assign", "Foo", "AddAssignAssign", "add"] {
+        let outs = ev.call_fn(St::new(), &f, None, vec![Val::Str(junk.to_string())]);
+        let ok = outs.len() == 1 && matches!(&outs[0].1, Flow::Val(Val::Enum { var, .. }) | Flow::Ret(Val::Enum { var, .. }) if var == "None");
+        n += 1;
+        rep.check(ok, "DM-op-parse", &f.qual, junk, &format!("`{junk}` is not refused"), &site(&f), json!({}));
+    }
+    rep.unanalysable(&f.qual, &ev.unsupported.borrow());
+    rep.floor("operator names parsed", n, 24);
+}
+
+/// DM-expand-self: `Self` inside the user's types / generics is replaced by the impl's self type, everything else is
+/// traversed (so nested occurrences are reached) and left alone
+pub fn expand_self_rule(cx: &Cx, rep: &mut Report) {
+    let ix = &cx.ix;
+    let Some(outer) = find_fn(ix, &|f| f.self_ty.is_none() && sig_text(f).contains("to:&Type") && sig_text(f).ends_with("->T")) else {
+        rep.fail("unanalysable", "expand_self", "not-found", "(&T, to: &Type) -> T not found", "syn_utils.rs", json!({})); return;
+    };
+    let mut nested: Option<syn::ImplItemFn> = None;
+    for s in &outer.block.stmts { if let syn::Stmt::Item(syn::Item::Impl(im)) = s { for it in &im.items { if let syn::ImplItem::Fn(f) = it { if f.sig.ident.to_string().starts_with("visit_") { nested = Some(f.clone()); } } } } }
+    let Some(vf) = nested else { rep.fail("DM-expand-self", &outer.qual, "no-visitor", "the value is no longer rewritten by a syn visitor override", &site(&outer), json!({})); return; };
+    // the frame: a copy of the input is traversed with `to` as the replacement and returned
+    {
+        let ev = mk_ev(ix);
+        ev.open_at_top.replace(Some(outer.qual.clone()));
+        let outs = ev.call_fn(St::new(), &outer, None, vec![sym("Type", "input"), sym("Type", "to")]);
+        let ok = outs.len() == 1 && matches!(&outs[0].1, Flow::Val(Val::Sym { path, .. }) | Flow::Ret(Val::Sym { path, .. }) if path == "input") && notes(&outs[0].0).iter().any(|n| n.starts_with("mutcall ") && n.contains("visit_type_mut") && n.contains("$to") && n.contains("$input"));
+        rep.check(ok, "DM-expand-self", &outer.qual, "frame", &format!("the input is not traversed (as a copy) with the self type as replacement and returned: {:?} / {:?}", outs.iter().map(|(_, fl)| match fl { Flow::Val(v) | Flow::Ret(v) => v.short(), _ => "?".into() }).collect::<Vec<_>>(), outs.first().map(|o| notes(&o.0)).unwrap_or_default()), &site(&outer), json!({}));
+        rep.unanalysable(&outer.qual, &ev.unsupported.borrow());
+    }
+    let fd = Rc::new(FnDef { qual: format!("{}::{}", outer.qual, vf.sig.ident), self_ty: Some("ExpandSelfVisitor".into()), sig: vf.sig.clone(), block: vf.block.clone(), file: outer.file.clone(), line: vf.sig.ident.span().start().line, attrs: vec![], is_trait_impl: Some("VisitMut".into()) });
+    let ev = mk_ev(ix);
+    let outs = ev.call_fn(St::new(), &fd, Some(sym("ExpandSelfVisitor", "v")), vec![sym("Type", "i")]);
+    rep.unanalysable(&fd.qual, &ev.unsupported.borrow());
+    let (mut replaced, mut descended, mut bad) = (false, false, Vec::new());
+    for (st, _) in &outs {
+        let is_self = st.cond.iter().find(|(a, _)| a.contains("==quote(Self)")).map(|(_, b)| *b);
+        let ns = notes(st);
+        let assigns = ns.iter().any(|n| n.starts_with("deref-assign $i := ") && n.contains("v.to"));
+        let any_assign = ns.iter().any(|n| n.starts_with("deref-assign"));
+        let descends = ns.iter().any(|n| n.starts_with(&format!("extcall {}", vf.sig.ident)));
+        match is_self {
+            Some(true) => { if assigns && !descends { replaced = true; } else { bad.push(format!("on `Self`: replaced by the target: {assigns}, descends: {descends}")); } }
+            Some(false) => { if descends && !any_assign { descended = true; } else { bad.push(format!("on another type: descends: {descends}, rewritten: {any_assign}")); } }
+            None => bad.push("the visited type is not compared with `Self`".into()),
+        }
+    }
+    rep.check(replaced && descended && bad.is_empty(), "DM-expand-self", &fd.qual, "replace-or-descend", &format!("`Self` is not replaced by the self type exactly where it occurs (replaced: {replaced}, other types traversed: {descended}; {})", bad.join("; ")), &site(&fd), json!({}));
+}
+
+/// DM-parse-single: the by-name lookup of a helper attribute - absent: nothing; once: parsed (`#[x]` alone = defaults,
+/// `#[x = ..]` refused); twice: refused
+pub fn parse_single_rule(cx: &Cx, rep: &mut Report) {
+    let ix = &cx.ix;
+    let Some(f) = find_fn(ix, &|f| f.self_ty.is_none() && sig_text(f).contains("&[Attribute]") && sig_text(f).contains("&str") && sig_text(f).contains("Result<Option<T>>")) else {
+        rep.fail("unanalysable", "parse_single", "not-found", "the by-name attribute lookup (attrs, name) -> Result<Option<T>> not found", "item_type.rs", json!({})); return;
+    };
+    let mut judged = 0;
+    for n in 0..=2usize {
+        let ev = mk_ev(ix);
+        let attrs = Val::Array((1..=n).map(|k| Val::Sym { ty: Ty::Named("Attribute".into(), vec![]), path: format!("attrs[#{k}]") }).collect());
+        let outs = ev.call_fn(St::new(), &f, None, vec![attrs, Val::Sym { ty: Ty::Named("str".into(), vec![]), path: "name".into() }]);
+        rep.unanalysable(&f.qual, &ev.unsupported.borrow());
+        for (st, fl) in &outs {
+            let v = match fl { Flow::Val(v) | Flow::Ret(v) => v, _ => continue };
+            // which attributes carry the name on this path
+            let mut named = Vec::new();
+            let mut undecided = false;
+            for k in 1..=n {
+                match st.cond.iter().find(|(a, _)| a.contains(&format!("attrs[#{k}]")) && a.contains(".is_ident")).map(|(_, b)| *b) { Some(true) => named.push(k), Some(false) => {} None => undecided = true }
+            }
+            let is_err = matches!(v, Val::Enum { var, .. } if var == "Err");
+            let is_ok_none = matches!(v, Val::Enum { var, args, .. } if var == "Ok" && matches!(args.first(), Some(Val::Enum { var: v2, .. }) if v2 == "None"));
+            let is_ok_some = matches!(v, Val::Enum { var, args, .. } if var == "Ok" && matches!(args.first(), Some(Val::Enum { var: v2, .. }) if v2 == "Some"));
+            judged += 1;
+            let ok = match named.len() {
+                // an undecided attribute comes after the point where the outcome was fixed (an earlier error)
+                _ if undecided => is_err,
+                0 => is_ok_none,
+                1 => {
+                    let k = named[0];
+                    let meta = |s: &str| st.cond.iter().find(|(a, _)| a.contains(&format!("attrs[#{k}]")) && a.ends_with(&format!(" is {s}"))).map(|(_, b)| *b);
+                    if meta("NameValue") == Some(true) { is_err } else if meta("Path") == Some(true) { is_ok_some } else { is_ok_some || (is_err && st.cond.iter().any(|(a, b)| a.starts_with("ok(") && !*b)) }
+                }
+                _ => is_err,
+            };
+            rep.check(ok, "DM-parse-single", &f.qual, &format!("{n}-attributes:{}-named", named.len()), &format!("with {} attribute(s) of the looked-up name among {n} the lookup answers {} (expected: none -> Ok(None), one -> parsed or its own error, several -> refused)", named.len(), v.short().chars().take(120).collect::<String>()), &site(&f), json!({"path": crate::model::cond_str(&st.cond)}));
+        }
+    }
+    rep.floor("attribute-lookup paths judged", judged, 8);
+}
+
 /// DM-output-type: the `Output` carried over to the generated impls is the type of the user's associated type named
 /// `Output` (and only of that one); without it the impl is refused
 pub fn output_type_rule(cx: &Cx, rep: &mut Report) {
